@@ -826,3 +826,149 @@ func R15TypedNil(c *Ctx) {
 	}
 	c.R.Extra["R15-typed-nil.sites"] = n
 }
+
+// R15AgentClose — a close/remove reported by the agent closes the server side for every socket type that has one.
+func R15AgentClose(c *Ctx) {
+	const rule = "R15-agent-close"
+	c.R.Rule(rule, "in TaskDispatch, under the socket sub-command SOCKET_COMMAND_RPORTFWD_REMOVE the call PortFwdClose(<socket id>) is reached for both socket types the agent reports that way (SOCKET_TYPE_REVERSE_PORTFWD: the forward itself, SOCKET_TYPE_CLIENT: one of its clients), and under SOCKET_COMMAND_CLOSE the call SocksClientClose is reached for SOCKET_TYPE_REVERSE_PROXY: the comparisons of parsed values with constants that dominate the call do not exclude any of these types", 3)
+	td := c.P.Func(PkgAgent, "Agent.TaskDispatch")
+	if td == nil {
+		c.R.Anchor(rule, "agent.(*Agent).TaskDispatch")
+		return
+	}
+	parsed := func(v ssa.Value) ssa.Value {
+		for {
+			switch x := v.(type) {
+			case *ssa.Convert:
+				v = x.X
+				continue
+			case *ssa.ChangeType:
+				v = x.X
+				continue
+			}
+			break
+		}
+		if call, ok := v.(*ssa.Call); ok && strings.HasPrefix(CalleeName(call), "(*Havoc/pkg/common/parser.Parser).Parse") {
+			return call
+		}
+		return nil
+	}
+	type cmpFact struct {
+		x     ssa.Value
+		k     int64
+		equal bool // the fact says x == k (true) or x != k (false)
+	}
+	// how many distinct constants each parsed value is compared with (the switch tag has many)
+	consts := map[ssa.Value]map[int64]bool{}
+	for _, fn := range HelperClosure(td, 1) {
+		for _, b := range fn.Blocks {
+			for _, in := range b.Instrs {
+				bo, ok := in.(*ssa.BinOp)
+				if !ok || (bo.Op != token.EQL && bo.Op != token.NEQ) {
+					continue
+				}
+				for _, pair := range [][2]ssa.Value{{bo.X, bo.Y}, {bo.Y, bo.X}} {
+					if x := parsed(pair[0]); x != nil {
+						if k, isC := ConstInt(pair[1]); isC {
+							if consts[x] == nil {
+								consts[x] = map[int64]bool{}
+							}
+							consts[x][k] = true
+						}
+					}
+				}
+			}
+		}
+	}
+	factsOf := func(b *ssa.BasicBlock) []cmpFact {
+		var out []cmpFact
+		for _, f := range FactsAt(b) {
+			cond, truth := StripNot(f.Cond, f.Truth)
+			bo, ok := cond.(*ssa.BinOp)
+			if !ok || (bo.Op != token.EQL && bo.Op != token.NEQ) {
+				continue
+			}
+			for _, pair := range [][2]ssa.Value{{bo.X, bo.Y}, {bo.Y, bo.X}} {
+				if x := parsed(pair[0]); x != nil {
+					if k, isC := ConstInt(pair[1]); isC {
+						out = append(out, cmpFact{x, k, (bo.Op == token.EQL) == truth})
+					}
+				}
+			}
+		}
+		return out
+	}
+	type row struct {
+		callee, arm string
+		types       []string
+	}
+	for _, r := range []row{
+		{"(*Havoc/pkg/agent.Agent).PortFwdClose", "SOCKET_COMMAND_RPORTFWD_REMOVE", []string{"SOCKET_TYPE_REVERSE_PORTFWD", "SOCKET_TYPE_CLIENT"}},
+		{"(*Havoc/pkg/agent.Agent).SocksClientClose", "SOCKET_COMMAND_CLOSE", []string{"SOCKET_TYPE_REVERSE_PROXY"}},
+	} {
+		armK, ok := c.pkgConst(PkgAgent, r.arm)
+		if !ok {
+			c.R.Anchor(rule, "agent."+r.arm)
+			continue
+		}
+		// the sites of the call inside the arm: dominated by (tag == armK) where tag is compared with many constants
+		type site struct {
+			pos   token.Pos
+			other []cmpFact
+		}
+		var sites []site
+		for _, fn := range HelperClosure(td, 1) {
+			EachCall(fn, func(call ssa.CallInstruction) {
+				if CalleeName(call) != r.callee {
+					return
+				}
+				fs := factsOf(call.Block())
+				inArm := false
+				var other []cmpFact
+				for _, f := range fs {
+					if len(consts[f.x]) >= 4 {
+						if f.equal && f.k == armK {
+							inArm = true
+						}
+						continue
+					}
+					other = append(other, f)
+				}
+				if inArm {
+					sites = append(sites, site{call.Pos(), other})
+				}
+			})
+		}
+		for _, tn := range r.types {
+			tk, ok := c.pkgConst(PkgAgent, tn)
+			if !ok {
+				c.R.Anchor(rule, "agent."+tn)
+				continue
+			}
+			construct := shortCallee(r.callee) + " under " + r.arm + " for " + tn
+			admitted := false
+			for _, s := range sites {
+				okSite := true
+				for _, f := range s.other {
+					if f.equal && f.k != tk {
+						okSite = false
+					}
+					if !f.equal && f.k == tk {
+						okSite = false
+					}
+				}
+				if okSite {
+					admitted = true
+				}
+			}
+			switch {
+			case len(sites) == 0:
+				c.R.Bad(rule, FuncShort(td), construct, c.pos(td.Pos()), "no call of "+shortCallee(r.callee)+" is left under this sub-command: a close reported by the agent no longer closes the server side")
+			case admitted:
+				c.R.Ok(rule, FuncShort(td), construct, c.pos(sites[0].pos), "the call is reached for this socket type", true)
+			default:
+				c.R.Bad(rule, FuncShort(td), construct, c.pos(sites[0].pos), "every call of "+shortCallee(r.callee)+" under this sub-command is conditional on comparisons that exclude "+tn+": the agent's report for such a socket leaves the server-side entry and its connection open")
+			}
+		}
+	}
+}
